@@ -123,7 +123,8 @@ def _scene(rng, task):
             ests.append(e)
             k += 1
         rng.shuffle(ests)
-        frames.append({"t": 1000 * (f + 1), "gts": [dict(g) for g in gts], "ests": ests, "pose": _pose(rng)})
+        frames.append({"t": 1000 * (f + 1), "gts": [dict(g) for g in gts], "ests": ests, "pose": _pose(rng),
+                       "history": rng.random() < 0.5})
     return {"kind": "scene", "task": task, "frames": frames, "cfg": _cfg(rng)}
 
 
@@ -192,7 +193,7 @@ def _render(case, frame):
 
         gts = [mk(o, False) for o in fr["gts"]]
         ests = [mk(o, True) for o in fr["ests"]]
-        gt_frame = B.mk_frame(fr["t"], len(out["frames"]), gts, e2m)
+        gt_frame = B.mk_frame(fr["t"], len(out["frames"]), gts, e2m, history=bool(fr.get("history")))
         res = m.add_frame_result(fr["t"], gt_frame, ests, crit, pf)
 
         def rid(r):
@@ -281,7 +282,7 @@ def _pair_obs(case):
     fr = case["frames"][0]
     cc, ss = B.rat_rot(Fraction(fr["pose"]["t"]))
     e2m = B.ego2map(fr["pose"]["tx"], fr["pose"]["ty"], B.yaw_of(cc, ss))
-    td = TransformDict([e2m])
+    td = B.mk_transforms(e2m, history=bool(fr.get("history")))
 
     def both(o):
         a = B.mk_obj(o["x"], o["y"], o["yaw"], MEMBER[o["label"]], o.get("score", 1.0), "base_link", o["uuid"], fr["t"],
